@@ -36,6 +36,8 @@ func main() {
 		os.Exit(cmdList())
 	case "witnesses":
 		os.Exit(cmdWitnesses())
+	case "params":
+		os.Exit(cmdParams())
 	default:
 		usage()
 	}
@@ -775,7 +777,14 @@ func runBounded(eng *Engine, id string, opts checkOpts, replayDir string) []map[
 		}
 		t1 := time.Now()
 		os.Setenv("VERIF_TIER", opts.tier)
+		// bounded enumerations get their own time limit (the witness / replay tests keep 120 s)
+		if opts.tier == "thorough" {
+			os.Setenv("GOCV_TEST_TIMEOUT", "3000s")
+		} else {
+			os.Setenv("GOCV_TEST_TIMEOUT", "600s")
+		}
 		res, _ := runTestOverlay(filepath.Join(outDir(), "work", id, "bounded"), pkgPath, string(src), "zz_gocv_bounded_test.go", "^TestGocvBounded")
+		os.Unsetenv("GOCV_TEST_TIMEOUT")
 		b := map[string]interface{}{"file": filepath.Base(f), "package": pkgPath, "wall_s": time.Since(t1).Seconds(), "cases": 0, "failures": 0, "label": "bounded (not counted as proved)"}
 		sawSummary := false
 		failClasses := map[string]string{}
@@ -874,4 +883,41 @@ func cmdWitnesses() int {
 		}
 	}
 	return rc
+}
+
+// cmdParams prints, for every repository function under contract, the Go parameter names in order
+// (receiver first): used by tools/positional_params.py to write the names into the contract heads.
+func cmdParams() int {
+	os.MkdirAll(filepath.Join(outDir(), "work"), 0o755)
+	eng, err := LoadEngine(filepath.Join(outDir(), "work"), []string{"./..."})
+	if err != nil {
+		fmt.Fprintln(os.Stderr, err)
+		return 2
+	}
+	for _, k := range eng.cs.Order {
+		fc := eng.cs.Funcs[k]
+		if fc.Extern {
+			continue
+		}
+		fn := eng.findFunc(fc.Pkg, fc.Key)
+		if fn == nil {
+			continue
+		}
+		var names []string
+		ok := true
+		for _, p := range fn.Params {
+			if p.Name() == "" || p.Name() == "_" {
+				ok = false
+			}
+			names = append(names, p.Name())
+		}
+		if ok {
+			loc := ""
+			if len(fc.Loops) > 0 {
+				loc = strings.Join(declaredLocals(fn), ", ")
+			}
+			fmt.Printf("%s\t%d\t%s\t%s\t%s\n", fc.File, fc.Line, fc.Key, strings.Join(names, ", "), loc)
+		}
+	}
+	return 0
 }
